@@ -5,7 +5,8 @@ from concurrent.futures import ThreadPoolExecutor
 
 VERIF = os.path.dirname(os.path.dirname(os.path.abspath(__file__)))
 REPO = os.environ.get("VERIF_REPO", "/repo")
-WORK = os.path.join(VERIF, "work")
+WORK = os.environ.get("VERIF_WORK", os.path.join(VERIF, "work"))
+EVIDENCE = os.environ.get("VERIF_EVIDENCE_DIR", os.path.join(VERIF, "evidence"))
 SPEC = os.path.join(VERIF, "spec")
 BIN = os.path.join(WORK, "target-bin", "debug", "complgen")
 RECORDER = os.path.join(WORK, "target-harness", "debug", "recorder")
@@ -43,14 +44,26 @@ def build(need_harness=True, need_bin=True):
             if r.returncode != 0:
                 raise ToolError("cargo build (binary) failed:\n" + r.stderr[-3000:])
         if need_harness:
-            hdir = os.path.join(VERIF, "harness")
-            lock = os.path.join(hdir, "Cargo.lock")
-            if not os.path.exists(lock):
-                shutil.copy(os.path.join(REPO, "Cargo.lock"), lock)
-            henv = dict(env)
-            if REPO != "/repo":
-                henv["CARGO_ENCODED_RUSTFLAGS"] = ""
-            r = subprocess.run(["cargo", "build", "--offline", "--quiet"], cwd=hdir, env=henv, capture_output=True, text=True)
+            # the harness is built from a copy of /verif/harness whose path dependency points at REPO (default /repo);
+            # files are rewritten only when their content changes, so cargo's fingerprints stay valid
+            src = os.path.join(VERIF, "harness")
+            hdir = os.path.join(WORK, "harness-src")
+            os.makedirs(os.path.join(hdir, "src"), exist_ok=True)
+
+            def put(rel, text):
+                dst = os.path.join(hdir, rel)
+                old = open(dst).read() if os.path.exists(dst) else None
+                if old != text:
+                    with open(dst, "w") as f:
+                        f.write(text)
+            put("Cargo.toml", open(os.path.join(src, "Cargo.toml")).read().replace('path = "/repo"', 'path = "%s"' % REPO))
+            put("build.rs", open(os.path.join(src, "build.rs")).read())
+            put(os.path.join("src", "main.rs"), open(os.path.join(src, "src", "main.rs")).read())
+            lock_src = os.path.join(src, "Cargo.lock")
+            put("Cargo.lock", open(lock_src if os.path.exists(lock_src) else os.path.join(REPO, "Cargo.lock")).read())
+            henv = dict(env, VERIF_REPO=REPO)
+            r = subprocess.run(["cargo", "build", "--offline", "--quiet", "--target-dir", os.path.join(WORK, "target-harness")], cwd=hdir, env=henv,
+                               capture_output=True, text=True)
             if r.returncode != 0:
                 raise ToolError("cargo build (harness) failed:\n" + r.stderr[-3000:])
     return time.time() - t0
@@ -289,12 +302,12 @@ class Verdict:
 
 
 def write_evidence(prop, tier, level, coverage, assumptions, wall, violations, extra=None):
-    os.makedirs(os.path.join(VERIF, "evidence"), exist_ok=True)
+    os.makedirs(EVIDENCE, exist_ok=True)
     ev = {"property_id": prop, "tier": tier, "seed": seed(), "level": level, "coverage": coverage,
           "assumptions": assumptions, "wall_s": round(wall, 2), "violations": violations}
     if extra:
         ev.update(extra)
-    with open(os.path.join(VERIF, "evidence", prop + ".json"), "w") as f:
+    with open(os.path.join(EVIDENCE, prop + ".json"), "w") as f:
         json.dump(ev, f, indent=1, sort_keys=True)
 
 
